@@ -234,9 +234,11 @@ class Run(object):
     def embeds_convicted(self, obj):
         if not self.convicted:
             return False
-        exts = list(getattr(obj, "extensions", None) or [])
-        for e in list(getattr(obj, "certificate_list", None) or []) + list(getattr(obj, "_cert_chain", None) or []):
-            exts += list(getattr(e, "extensions", None) or [])
+        def as_list(x):
+            return list(x) if isinstance(x, (list, tuple)) else []
+        exts = as_list(getattr(obj, "extensions", None))
+        for e in as_list(getattr(obj, "certificate_list", None)) + as_list(getattr(obj, "_cert_chain", None)):
+            exts += as_list(getattr(e, "extensions", None))
         return any(getattr(e, "extType", None) in self.convicted for e in exts)
 
     # ---- one (format, value) case
